@@ -6,14 +6,15 @@
  * not matter (e.g. folding or prefixing a text field that does not need it). */
 #ifndef WRITER_CONTRACT_H
 #define WRITER_CONTRACT_H
-struct wstats { int nlines, first, last, maxl, has_nlsemi, reserved_start, run3_sq, run3_dq, n_sq, n_dq; };
+struct wstats { int nlines, first, last, maxl, has_nlsemi, reserved_start, run3_sq, run3_dq, n_sq, n_dq, max_semi_run; };
 static struct wstats w_stats(const UChar *s, int n) {
-    struct wstats w; int i, l = 0, rs = 0, rd = 0, k;
-    w.nlines = 1; w.first = -1; w.maxl = 0; w.has_nlsemi = 0; w.reserved_start = 0; w.run3_sq = 0; w.run3_dq = 0; w.n_sq = 0; w.n_dq = 0;
+    struct wstats w; int i, l = 0, rs = 0, rd = 0, k, semis = 0;
+    w.nlines = 1; w.first = -1; w.maxl = 0; w.has_nlsemi = 0; w.reserved_start = 0; w.run3_sq = 0; w.run3_dq = 0; w.n_sq = 0; w.n_dq = 0; w.max_semi_run = 0;
     for (i = 0; i < n; i++) {
         if (s[i] == 0x0a) { if (w.first < 0) w.first = l; if (l > w.maxl) w.maxl = l; l = 0; w.nlines++; if (i + 1 < n && s[i + 1] == ';') w.has_nlsemi = 1; } else l++;
         if (s[i] == 0x27) { w.n_sq++; if (++rs >= 3) w.run3_sq = 1; } else rs = 0;
         if (s[i] == '"') { w.n_dq++; if (++rd >= 3) w.run3_dq = 1; } else rd = 0;
+        if (s[i] == ';') { if (++semis > w.max_semi_run) w.max_semi_run = semis; } else semis = 0;
     }
     if (w.first < 0) w.first = l;
     if (l > w.maxl) w.maxl = l;
@@ -48,12 +49,15 @@ static int pre_triple(const UChar *s, int n, int line1_arg, int last_arg, int de
     if (w.nlines == 1) return n <= L - 6;
     return w.first + 3 <= L && w.last + 3 <= L && w.maxl <= L;
 }
-static int pre_text(const UChar *s, int n, int len_arg, int fold, int prefix, int L, int version) {
+/* W = the fold-point search window of write_text / fold_line (FOLDING_WINDOW in the current source): when folding without the
+ * prefix protocol a segment must not be cut just before a semicolon, so runs of W or more semicolons need prefixing */
+static int pre_text(const UChar *s, int n, int len_arg, int fold, int prefix, int L, int version, int W) {
     struct wstats w = w_stats(s, n);
     if (n < 1 || len_arg != n) return 0;
     if (w.has_nlsemi && !prefix) return 0;                                 /* an embedded newline-semicolon needs the prefix protocol */
     if (fold && s[0] == ';' && !prefix) return 0;                          /* a folded field starting with ';' would put that ';' at the start of a line */
     if ((w.maxl > L || w.first >= L || w.reserved_start) && !fold) return 0; /* too-long lines and marker look-alikes need folding */
+    if (fold && !prefix && w.max_semi_run >= W) return 0;                    /* no admissible fold point near a long run of semicolons */
     return 1;
 }
 #endif
